@@ -350,7 +350,7 @@ def minimise(scn, item, budget_s=120):
 
 
 def write_replay(prop, case, seed, trace, violation, digest=None):
-    d = os.path.join(VERIF, "replays")
+    d = os.environ.get("WDSIM_REPLAY_DIR") or os.path.join(VERIF, "replays")
     os.makedirs(d, exist_ok=True)
     path = os.path.join(d, f"{prop}-{seed}.json")
     with open(path, "w") as f:
@@ -360,6 +360,8 @@ def write_replay(prop, case, seed, trace, violation, digest=None):
 
 # ----------------------------------------------------------------------------- evidence
 def write_evidence(prop, tier, base_seed, scn, m, wall, n_viol, extra_cov=None):
+    if os.environ.get("WDSIM_NO_EVIDENCE"):
+        return
     os.makedirs(os.path.join(VERIF, "evidence"), exist_ok=True)
     runs = max(1, m["runs"])
     cov = {
@@ -475,6 +477,10 @@ def main(argv=None):
         os.execv(sys.executable, [sys.executable, os.path.join(VERIF, "check")] + (argv if argv is not None else sys.argv[1:]))
     setup_path()
     base_seed = a.seed if a.seed is not None else int(os.environ.get("VERIF_SEED", "1"))
+    if a.prop == "selftest-sensitivity":
+        from . import sensitivity
+
+        return sensitivity.main(a)
     if a.prop.startswith("selftest"):
         from . import selftest
 
